@@ -11,7 +11,7 @@ ASSUME = sc.ASSUME + [
 ]
 
 MUTATORS = ['set_T', 'set_P', 'set_flow', 'set_flow', 'scale', 'set_phase', 'set_phases', 'mix_from', 'copy_like', 'link_with',
-            'proxy', 'flow_proxy', 'unlink', 'view_write', 'view_set_T', 'split_to', 'separate_out', 'copy_flow', 'reduce_phases', 'restore', 'save']
+            'proxy', 'flow_proxy', 'unlink', 'view_write', 'view_set_T', 'split_to', 'separate_out', 'copy_flow', 'reduce_phases', 'restore', 'save', 'reset_thermo', 'reset_thermo']
 
 MC_TEMPLATE = '''---- MODULE %(name)s ----
 EXTENDS PropCache
@@ -85,6 +85,29 @@ def aba_paths(rng, n):
     handle, read, change it back, read through another handle of the same state (proxy / link / flow proxy /
     the stream itself)."""
     out = []
+    for _ in range(n // 3):
+        # multi-phase stream: redistribute material between phases with unchanged per-chemical totals, T, P
+        x = rng.choice(['a', 'b'])
+        props = rng.sample(ds.PROPS, 3)
+        w, e = rng.choice([8, 12]), rng.choice([8, 12])
+        ops = [('construct', dict(x=x, k='m', price=0, cf=0)), ('set_flow', dict(x=x, p='l', c=1, v=w)), ('set_flow', dict(x=x, p='g', c=2, v=e)),
+               ('set_T', dict(x=x, T=350))]
+        ops += [('read', dict(x=x, prop=p)) for p in props]
+        via_view = rng.random() < 0.5
+        wr = 'view_write' if via_view else 'set_flow'
+        ops += [(wr, dict(x=x, p='l', c=1, v=w - 4)), (wr, dict(x=x, p='g', c=1, v=4))]
+        ops += [('read', dict(x=x, prop=p)) for p in props]
+        if rng.random() < 0.5:
+            ops += [('reset_thermo', dict(x=x, pkg='P2'))] + [('read', dict(x=x, prop=p)) for p in props]
+        out.append([dict(op=o, a=a) for o, a in ops])
+    for _ in range(n // 6):
+        # property-package change between reads (same chemicals at the same positions, other models)
+        x = rng.choice(['a', 'b'])
+        props = rng.sample(ds.PROPS, 4)
+        ops = [('construct', dict(x=x, k='s', price=0, cf=0)), ('set_flow', dict(x=x, p='l', c=1, v=4)), ('set_flow', dict(x=x, p='l', c=2, v=8))]
+        ops += [('read', dict(x=x, prop=p)) for p in props] + [('reset_thermo', dict(x=x, pkg='P2'))] + [('read', dict(x=x, prop=p)) for p in props]
+        ops += [('reset_thermo', dict(x=x, pkg='P'))] + [('read', dict(x=x, prop=p)) for p in props]
+        out.append([dict(op=o, a=a) for o, a in ops])
     for _ in range(n):
         x, y = rng.sample(['a', 'b'], 2)
         ops = [('construct', dict(x=x, k='s', price=0, cf=0)), ('set_flow', dict(x=x, p='l', c=1, v=8)), ('set_flow', dict(x=x, p='l', c=2, v=4))]
